@@ -19,7 +19,7 @@ Proof.
   subst s0. constructor.
   - reflexivity.
   - repeat constructor.
-  - repeat constructor.
+  - repeat (constructor; [split; [reflexivity | apply Nat.leb_le; vm_compute; reflexivity]|]). constructor.
   - reflexivity.
   - cbn. constructor; [intros [X|[]]; discriminate | constructor; [intros [] | constructor]].
   - right. left. reflexivity.
@@ -276,28 +276,19 @@ Proof.
   destruct Hcase as [->|Hgt]; [contradiction|]. specialize (Hob nr X). lia.
 Qed.
 
-Lemma st_create_table_rep s d n fds s' :
-  Rep s d -> is_sys n = false -> NoDup (names fds) -> nextFree s' <= OFFMAX ->
-  st_create_table s n fds = (s', Ok tt) ->
-  find_tbl n d = None /\ Rep s' (d ++ [mkTbl n fds []]).
+(* createPage + insertPageTable: the table is registered with no columns yet *)
+Lemma create_register_rep s d n s2 :
+  Rep s d -> is_sys n = false -> find_tbl n d = None -> nextFree s2 <= OFFMAX ->
+  insert_page_table (fst (create_page s)) (nextFree s) n = (s2, Ok tt) ->
+  Rep s2 (d ++ [mkTbl n [] []]).
 Proof.
-  intros HR Hsys Hnd Hmax Hrun. pose proof HR as [Hinv Hok (pt & sc & ents & osc & HC)].
-  unfold st_create_table in Hrun.
-  destruct (find_tbl n d) as [t|] eqn:Hf.
-  { exfalso. destruct (find_tbl_In _ _ _ Hf) as [Hin Hn].
-    destruct (c_tabs _ _ _ _ _ _ HC t Hin) as (o & tr & He & _). rewrite Hn in He.
-    rewrite (cat_rel_offset_in s d pt sc ents osc Hinv Hok HC _ _ He) in Hrun. inversion Hrun. }
-  split; [reflexivity|].
-  rewrite (cat_rel_offset_none s d pt sc ents osc Hinv HC n Hsys Hf) in Hrun.
+  intros HR Hsys Hf Hmax2 Eip. pose proof HR as [Hinv Hok (pt & sc & ents & osc & HC)].
   pose proof (create_page_inv s Hinv) as Hinv1. pose proof (create_page_find s Hinv) as Hcp.
-  destruct (create_page s) as [s1 pg] eqn:Ecp. cbn [fst] in Hinv1, Hcp.
-  assert (Es1 : ptRoot s1 = ptRoot s /\ nextFree s1 = nextFree s + PS /\ pg = nextFree s /\ lastKey s1 = lastKey s).
+  destruct (create_page s) as [s1 pg] eqn:Ecp. cbn [fst] in Hinv1, Hcp, Eip.
+  assert (Es1 : ptRoot s1 = ptRoot s /\ nextFree s1 = nextFree s + PS /\ lastKey s1 = lastKey s).
   { unfold create_page in Ecp. inversion Ecp; subst. cbn. auto. }
-  destruct Es1 as (Hptr1 & Hnf1 & -> & Hlk1).
-  pose proof (insert_page_table_inv s1 (nextFree s) n Hinv1) as Hinv2.
-  destruct (insert_page_table s1 (nextFree s) n) as [s2 [[]|e|]] eqn:Eip; try (inversion Hrun; fail).
-  cbn [fst] in Hinv2.
-  (* the page-table insertion *)
+  destruct Es1 as (Hptr1 & Hnf1 & Hlk1).
+  pose proof (insert_page_table_inv s1 (nextFree s) n Hinv1) as Hinv2. rewrite Eip in Hinv2. cbn [fst] in Hinv2.
   unfold insert_page_table in Eip.
   change [("table_name", VStr n); ("file_offset", VInt (Z.of_N (nextFree s)))] with (pt_tuple (n, nextFree s)) in Eip.
   rewrite encode_pt_tuple in Eip.
@@ -309,14 +300,8 @@ Proof.
   destruct (bt_insert_spec s1 (ptRoot s1) _ pt Hinv1 Hpt1 s2' k lsn nr Ebt)
     as (pt' & Hinv2' & -> & -> & -> & Hlk & Hptr & Hnf & Hlsn & Hlen & Hrt & Hcells & Hfind & Hframe).
   set (s2 := mkStore (forest s2') (lastKey s2') (t_off pt') (nextFree s2') (nextLSN s2')) in *.
-  (* the schema rows *)
-  unfold insert_schema_table in Hrun.
+  cbn [nextFree s2] in Hmax2.
   set (T0 := mkTbl n [] []).
-  assert (Hmax2 : nextFree s2' <= OFFMAX).
-  { destruct (rel_offset s2 schemaTableName) as [off|e|]; cbn [bind] in Hrun; try (inversion Hrun; fail).
-    destruct (get_tree s2 off) as [x|e|]; cbn [bind] in Hrun; try (inversion Hrun; fail).
-    pose proof (insert_schema_rows_free_mono n fds s2 off) as X. rewrite Hrun in X. cbn [fst] in X.
-    unfold s2 in X. cbn [nextFree] in X. lia. }
   assert (Hpgmax : nextFree s < OFFMAX) by (pose proof PS_pos; lia).
   assert (Hold : forall n2 o2, In (n2, o2) ents -> n2 <> "sys_pages" ->
                  o2 < nextFree s /\ o2 <> ptRoot s /\ find_root o2 (forest s2') = find_root o2 (forest s)).
@@ -373,9 +358,68 @@ Proof.
         pose proof PS_pos.
         rewrite Hframe; [| rewrite Hptr1; lia | destruct Hrt as [Hrt|Hrt]; [rewrite Hrt, Hptr1; lia | lia]].
         rewrite Hcp, N.eqb_refl. reflexivity. }
-  assert (HR2 : Rep s2 (d ++ [T0])) by (constructor; eauto).
-  pose proof (cat_rel_offset_in s2 _ pt' sc _ osc Hinv2 Hok2 HC2 _ _ (c_osc _ _ _ _ _ _ HC2)) as Eosc.
+  constructor; eauto.
+Qed.
+
+(* trees may be added to the forest *)
+Lemma Rep_extend s s' d :
+  Rep s d -> SInv s' -> ptRoot s' = ptRoot s ->
+  (forall o tr, find_root o (forest s) = Some tr -> find_root o (forest s') = Some tr) ->
+  Rep s' d.
+Proof.
+  intros [Hinv Hok (pt & sc & ents & osc & HC)] Hinv' Hp Hf. constructor; auto.
+  exists pt, sc, ents, osc. destruct HC as [A1 A2 A3 A4 A5 A6 A7 A8 A9 A10]. constructor; rewrite ?Hp; auto.
+  intros t Ht. destruct (A10 t Ht) as (o & tr & X1 & X2 & X3). exists o, tr. auto.
+Qed.
+
+Lemma create_page_extend s : SInv s ->
+  forall o tr, find_root o (forest s) = Some tr -> find_root o (forest (fst (create_page s))) = Some tr.
+Proof.
+  intros Hinv o tr H. rewrite (create_page_find s Hinv). pose proof (find_root_bound s o tr Hinv H).
+  destruct (N.eqb_spec (nextFree s) o); [lia | exact H].
+Qed.
+
+(* a failing insertPageTable leaves the new page allocated and nothing else changed *)
+Lemma create_register_err_rep s d n s2 e :
+  Rep s d -> insert_page_table (fst (create_page s)) (nextFree s) n = (s2, Err e) -> Rep s2 d.
+Proof.
+  intros HR Eip. pose proof HR as [Hinv Hok _].
+  pose proof (create_page_inv s Hinv) as Hinv1. pose proof (create_page_extend s Hinv) as Hcp.
+  pose proof (insert_page_table_inv (fst (create_page s)) (nextFree s) n Hinv1) as Hinv2. rewrite Eip in Hinv2. cbn [fst] in Hinv2.
+  assert (Hp1 : ptRoot (fst (create_page s)) = ptRoot s) by reflexivity.
+  unfold insert_page_table in Eip.
+  destruct (encode_tuple _ _) as [bs|e0|]; [|inversion Eip; subst; apply (Rep_extend s _ d HR Hinv2 Hp1 Hcp)|inversion Eip].
+  destruct (bt_insert (fst (create_page s)) (ptRoot (fst (create_page s))) bs) as [s2' [[[k lsn] nr]|e1|]] eqn:Ebt; inversion Eip; subst.
+  destruct (bt_insert_err _ _ _ _ _ Ebt) as (A & B & _).
+  apply (Rep_extend s s2 d HR Hinv2); [congruence|]. intros o tr H. rewrite A. apply Hcp. exact H.
+Qed.
+
+Lemma st_create_table_rep s d n fds s' :
+  Rep s d -> is_sys n = false -> NoDup (names fds) -> nextFree s' <= OFFMAX ->
+  st_create_table s n fds = (s', Ok tt) ->
+  find_tbl n d = None /\ Rep s' (d ++ [mkTbl n fds []]).
+Proof.
+  intros HR Hsys Hnd Hmax Hrun. pose proof HR as [Hinv Hok (pt & sc & ents & osc & HC)].
+  unfold st_create_table in Hrun.
+  destruct (find_tbl n d) as [t|] eqn:Hf.
+  { exfalso. destruct (find_tbl_In _ _ _ Hf) as [Hin Hn].
+    destruct (c_tabs _ _ _ _ _ _ HC t Hin) as (o & tr & He & _). rewrite Hn in He.
+    rewrite (cat_rel_offset_in s d pt sc ents osc Hinv Hok HC _ _ He) in Hrun. inversion Hrun. }
+  split; [reflexivity|].
+  rewrite (cat_rel_offset_none s d pt sc ents osc Hinv HC n Hsys Hf) in Hrun.
+  pose proof (create_register_rep s d n) as Hreg.
+  destruct (create_page s) as [s1 pg] eqn:Ecp.
+  assert (pg = nextFree s) by (unfold create_page in Ecp; inversion Ecp; reflexivity). subst pg. cbn [fst] in Hreg.
+  destruct (insert_page_table s1 (nextFree s) n) as [s2 [[]|e|]] eqn:Eip; try (inversion Hrun; fail).
+  unfold insert_schema_table in Hrun.
+  assert (Hmax2 : nextFree s2 <= OFFMAX).
+  { destruct (rel_offset s2 schemaTableName) as [off|e|]; cbn [bind] in Hrun; try (inversion Hrun; fail).
+    destruct (get_tree s2 off) as [x|e|]; cbn [bind] in Hrun; try (inversion Hrun; fail).
+    pose proof (insert_schema_rows_free_mono n fds s2 off) as X. rewrite Hrun in X. cbn [fst] in X. lia. }
+  pose proof (Hreg s2 HR Hsys Hf Hmax2 eq_refl) as HR2.
+  pose proof HR2 as [Hinv2 Hok2 (pt2 & sc2 & ents2 & osc2 & HC2)].
+  pose proof (cat_rel_offset_in s2 _ pt2 sc2 _ osc2 Hinv2 Hok2 HC2 _ _ (c_osc _ _ _ _ _ _ HC2)) as Eosc.
   unfold schemaTableName in Hrun. rewrite Eosc in Hrun. cbn [bind] in Hrun.
   unfold get_tree in Hrun. rewrite (c_sc _ _ _ _ _ _ HC2) in Hrun. cbn [bind] in Hrun.
-  exact (insert_schema_rows_rep n fds s2 d [] osc s' HR2 Eosc Hnd Hmax Hrun).
+  exact (insert_schema_rows_rep n fds s2 d [] osc2 s' HR2 Eosc Hnd Hmax Hrun).
 Qed.
